@@ -65,7 +65,8 @@ noncomputable def Cov.kGradE (e : ℝ) : Cov ℝ → List ℝ → List ℝ → L
   | .pow l p ad, x, y =>
     let xs := select ad x; let ys := select ad y
     let bk := l.k xs ys
-    expand ad y.length ((l.kGradE e xs ys).map fun bg => if 0 < bk then p * rpow bk (p - 1) * bg else 0)
+    expand ad y.length ((l.kGradE e xs ys).map fun bg =>
+      if (¬ (0 < bk) ∧ ¬ (bk < 0)) ∧ p < 1 then 0 else p * rpow bk (p - 1) * bg)
 
 /-- The model of `cov.k_grad` is the recursion with guard `1e-12`. -/
 theorem kGrad_eq_kGradE (c : Cov ℝ) (x y : List ℝ) : c.kGrad x y = c.kGradE distEps x y := by
@@ -82,10 +83,38 @@ theorem kGrad_eq_kGradE (c : Cov ℝ) (x y : List ℝ) : c.kGrad x y = c.kGradE 
   | mulC l c ad ih => simp only [Cov.kGrad, Cov.kGradE, ih]
   | pow l p ad ih => simp only [Cov.kGrad, Cov.kGradE, ih]
 
+/-! ### the guard of `Pow.k_grad` -/
+
+/-- The model's `¬ 0 < b ∧ ¬ b < 0` is `b = 0` (over ℝ; in float64 it differs only for NaN). -/
+theorem powGuard_iff (b p : ℝ) : ((¬ (0 < b) ∧ ¬ (b < 0)) ∧ p < 1) ↔ (b = 0 ∧ p < 1) := by
+  constructor
+  · rintro ⟨⟨h1, h2⟩, h3⟩; exact ⟨le_antisymm (not_lt.mp h1) (not_lt.mp h2), h3⟩
+  · rintro ⟨rfl, h3⟩; exact ⟨⟨lt_irrefl 0, lt_irrefl 0⟩, h3⟩
+
+/-- The guard is inactive for every non-zero base value and for every exponent `≥ 1`. -/
+theorem powGuard_inactive {b p : ℝ} (h : b ≠ 0 ∨ 1 ≤ p) : ¬ ((¬ (0 < b) ∧ ¬ (b < 0)) ∧ p < 1) := by
+  rw [powGuard_iff]
+  rintro ⟨h0, hp⟩
+  rcases h with h | h
+  · exact h h0
+  · exact absurd hp (not_lt.mpr h)
+
+/-- Where the float power `base ** p` is the real power and `u ↦ u^p` is differentiable at the base value:
+    a positive base (any exponent), or a natural-number exponent `m ≥ 1` (any base: negative, zero, positive).
+    (A negative base under a non-integer exponent is `nan` in float64; a zero base under `p < 1` is not
+    differentiable.) -/
+def PowOK (b p : ℝ) : Prop := 0 < b ∨ ∃ m : ℕ, 1 ≤ m ∧ p = (m : ℝ)
+
+theorem PowOK.ne_or_one_le {b p : ℝ} (h : PowOK b p) : b ≠ 0 ∨ 1 ≤ p := by
+  rcases h with h | ⟨m, hm, rfl⟩
+  · exact Or.inl (ne_of_gt h)
+  · exact Or.inr (by exact_mod_cast hm)
+
 /-! ### regularity: what the chain rule needs -/
 
-/-- `RatQuad` has `α > 0`, and every power node has a positive base value at the point
-    (`u ↦ u^p` is not differentiable at `0` for `p < 1`). -/
+/-- `RatQuad` has `α > 0`, and every power node either has a positive base value at the point or a
+    natural-number exponent `m ≥ 1` (`PowOK`: `u ↦ u^p` is not differentiable at `0` for `p < 1`, and
+    `base ** p` is `nan` for a negative base under a non-integer `p`). -/
 def Cov.Regular : Cov ℝ → List ℝ → List ℝ → Prop
   | .matern32 _ _, _, _ => True
   | .matern52 _ _, _, _ => True
@@ -97,7 +126,7 @@ def Cov.Regular : Cov ℝ → List ℝ → List ℝ → Prop
   | .addC l _ ad, x, y => l.Regular (select ad x) (select ad y)
   | .mul l r ad, x, y => l.Regular (select ad x) (select ad y) ∧ r.Regular (select ad x) (select ad y)
   | .mulC l _ ad, x, y => l.Regular (select ad x) (select ad y)
-  | .pow l _ ad, x, y => l.Regular (select ad x) (select ad y) ∧ 0 < l.k (select ad x) (select ad y)
+  | .pow l p ad, x, y => l.Regular (select ad x) (select ad y) ∧ PowOK (l.k (select ad x) (select ad y)) p
 
 /-- A syntactic sufficient condition: expressions whose value is positive everywhere (the five
     stationary kernels with positive parameters, closed under `+`, `*`, `+c`, `*c` with `c > 0`, powers). -/
@@ -140,7 +169,42 @@ theorem Cov.Positive.regular {c : Cov ℝ} (h : c.Positive) (x y : List ℝ) : c
   | addC l c ad ih => exact ih h.1 _ _
   | mul l r ad ihl ihr => exact ⟨ihl h.1 _ _, ihr h.2 _ _⟩
   | mulC l c ad ih => exact ih h.1 _ _
-  | pow l p ad ih => exact ⟨ih h _ _, Cov.Positive.k_pos (c := l) h _ _⟩
+  | pow l p ad ih => exact ⟨ih h _ _, Or.inl (Cov.Positive.k_pos (c := l) h _ _)⟩
+
+/-- A wider syntactic sufficient condition that admits `Linear` (values of any sign): every `RatQuad` has
+    `α > 0`, and every power node has either an everywhere-positive base (`Positive`) or a natural-number
+    exponent `m ≥ 1` over ANY base of the class — e.g. `Linear ** 2`, `(Linear + c) ** 3`,
+    `(Linear * Matern52) ** 2`, nested under sums and products. -/
+def Cov.Smooth : Cov ℝ → Prop
+  | .matern32 _ _ => True
+  | .matern52 _ _ => True
+  | .expquad _ _ => True
+  | .exponential _ _ => True
+  | .ratquad a _ _ => 0 < a
+  | .linear _ _ => True
+  | .add l r _ => l.Smooth ∧ r.Smooth
+  | .addC l _ _ => l.Smooth
+  | .mul l r _ => l.Smooth ∧ r.Smooth
+  | .mulC l _ _ => l.Smooth
+  | .pow l p _ => l.Smooth ∧ (l.Positive ∨ ∃ m : ℕ, 1 ≤ m ∧ p = (m : ℝ))
+
+theorem Cov.Smooth.regular {c : Cov ℝ} (h : c.Smooth) (x y : List ℝ) : c.Regular x y := by
+  induction c generalizing x y with
+  | matern32 ls ad => trivial
+  | matern52 ls ad => trivial
+  | expquad ls ad => trivial
+  | exponential ls ad => trivial
+  | ratquad a ls ad => exact h
+  | linear ls ad => trivial
+  | add l r ad ihl ihr => exact ⟨ihl h.1 _ _, ihr h.2 _ _⟩
+  | addC l c ad ih => exact ih h _ _
+  | mul l r ad ihl ihr => exact ⟨ihl h.1 _ _, ihr h.2 _ _⟩
+  | mulC l c ad ih => exact ih h _ _
+  | pow l p ad ih =>
+    refine ⟨ih h.1 _ _, ?_⟩
+    rcases h.2 with hp | hm
+    · exact Or.inl (Cov.Positive.k_pos (c := l) hp _ _)
+    · exact Or.inr hm
 
 /-! ### well-formedness gives the operand widths -/
 
@@ -393,11 +457,13 @@ theorem kGradE_zero_line (c : Cov ℝ) (x y u : List ℝ) (hxy : x.length = y.le
     have hw := select_length_of_indices ad y hi
     have hs := select_length_eq ad x y hxy
     have hus := select_length_eq ad u y hu
-    simp only [Cov.k, Cov.kGradE, rpow_real, hreg.2, if_true]
+    have hok := hreg.2.ne_or_one_le
+    simp only [Cov.k, Cov.kGradE, rpow_real, if_neg (powGuard_inactive hok)]
     apply hasDerivAt_node ad (fun xs ys => l.k xs ys ^ p) _ x y u hu
-    have hb : l.k (select ad x) (lineAt (select ad y) (select ad u) 0) ≠ 0 := by
-      rw [lineAt_zero _ _ hus]; exact ne_of_gt hreg.2
-    have h := (ih _ _ _ hs hus (hw ▸ hl) hreg.1).rpow_const (p := p) (Or.inl hb)
+    -- `u ↦ u^p` has derivative `p·u^(p−1)` at every `u ≠ 0`, and at every `u` when `p ≥ 1`
+    have hb : l.k (select ad x) (lineAt (select ad y) (select ad u) 0) ≠ 0 ∨ 1 ≤ p := by
+      rw [lineAt_zero _ _ hus]; exact hok
+    have h := (ih _ _ _ hs hus (hw ▸ hl) hreg.1).rpow_const (p := p) hb
     refine h.congr_deriv ?_
     rw [lineAt_zero _ _ hus,
       dot_map_left (fun bg => p * l.k (select ad x) (select ad y) ^ (p - 1) * bg)
